@@ -28,7 +28,7 @@ def _oracle(ctx, area, n, label):
     k = 14
     chunks = [lines[i::k] for i in range(k)]
     with ThreadPoolExecutor(max_workers=k) as ex:
-        res = list(ex.map(lambda c: ctx.run_impl(area, c) if c else [], chunks))
+        res = list(ex.map(lambda c: ctx.run_impl(area, c, timeout=300) if c else [], chunks))
     if any(r is None for r in res):
         return
     lines = [l for c in chunks for l in c]
@@ -66,10 +66,16 @@ def run(ctx):
         "float64 is modelled by exact rational arithmetic (core Lean `Rat`); the correspondence run only uses inputs "
         "(small dyadic rationals; contour queries filtered so that every quotient is representable) on which every "
         "float64 operation of the source is exact, and demands equality of the exact values (both zeros print as 0)",
-        "Go int overflow of X+Width is outside the model (coordinates stay below 2^33)",
+        "Go int overflow of X+Width is outside the model: int rectangles are generated up to the corners of the int64 "
+        "range (the pair is shifted so that its largest computed edge is MaxInt or MaxInt-1, or its smallest MinInt or "
+        "MinInt+1, and to 2^40..2^61), but only so that no intermediate value of the source leaves int64; inputs on "
+        "which Go would wrap are not generated",
         "Matrix.Rotate/NewRotationMatrix are modelled with (sin, cos) as parameters; the harness passes the float64 "
         "values of math.Sin/math.Cos (exact comparison on matrices whose products with them are exact); the general "
-        "rotation law is checked implementation-side within 16 ulp of the largest term (area `rotate`, no Lean model)",
+        "rotation laws are checked implementation-side (area `rotate`, no Lean model): Rotate, RotateByDegrees, "
+        "NewRotationMatrix, NewRotationByDegreesMatrix and n-fold Rotate (n up to 4000, against one rotation by n*theta) "
+        "within 16 ulp (n*16) RELATIVE to the sum of the absolute terms of each coordinate, no absolute slack; angles "
+        "densely within 1e-3..1e-12 of the quarter turns",
         "Contour.Bounds starts its min/max loop at the first vertex instead of at +/-MaxFloat64 (same result for finite "
         "coordinates)",
     ]
@@ -98,11 +104,11 @@ def run(ctx):
     ctx.harness("./cmd/c18")
     tg = lambda l, o: " ".join(l.split()[:2])
     th = "C18.%s (model = specification); impl != model on this input"
-    ctx.diff(area="rect", driver="drv_c18", n={"quick": 400000, "thorough": 4000000}, tagger=tg,
+    ctx.diff(area="rect", driver="drv_c18", timeout=300, n={"quick": 400000, "thorough": 4000000}, tagger=tg,
              theorem=th % "contains_iff / intersects_iff / intersect_spec / union_covers / union_smallest / empty_absorbs")
-    ctx.diff(area="matrix", driver="drv_c18", n={"quick": 200000, "thorough": 2000000}, tagger=tg,
+    ctx.diff(area="matrix", driver="drv_c18", timeout=300, n={"quick": 200000, "thorough": 2000000}, tagger=tg,
              theorem=th % "transform_multiply / transform_translate / transform_scale / transform_rotate / identity_neutral")
-    ctx.diff(area="poly", driver="drv_c18", n={"quick": 200000, "thorough": 2000000}, tagger=tg,
+    ctx.diff(area="poly", driver="drv_c18", timeout=300, n={"quick": 120000, "thorough": 2000000}, tagger=tg,
              theorem=th % "contour_contains_crossing / evenodd_spec / bounds_encloses / transform_maps_vertices")
     ctx.impl_oracle("rotate", n={"quick": 20000, "thorough": 400000},
                     label="rotation law with rounding sin/cos products, tolerance 16 ulp of the largest term")
